@@ -182,14 +182,14 @@ Qed.
 (* every state that can be entered has its class *)
 Theorem cs_state_classes : forall t s, In s (states t) -> In s (cs_classes t).
 Proof.
-  intros t s H. unfold cs_classes, tps_states. destruct (mem s (src_states t)) eqn:M.
+  intros t s H. unfold cs_classes. rewrite tps_states_all. destruct (mem s (src_states t)) eqn:M.
   - apply in_or_app. left. apply mem_In. assumption.
   - apply in_or_app. right. apply filter_In. split; [assumption|]. rewrite M. reflexivity.
 Qed.
 
 Theorem cs_classes_nodup_states : forall t s, In s (cs_classes t) -> forallb row_ok t = true -> In s (states t).
 Proof.
-  intros t s H Hwf. unfold cs_classes, tps_states in H. apply in_app_or in H as [H|H].
+  intros t s H Hwf. unfold cs_classes in H. rewrite tps_states_all in H. apply in_app_or in H as [H|H].
   - unfold src_states in H. apply (proj1 (In_dedup _ _)) in H. unfold present in H. apply filter_In in H as [H Hn].
     apply in_map_iff in H as (r & <- & Hr). apply src_in_states; [assumption|]. apply negb_true_iff. assumption.
   - apply filter_In in H as [H _]. assumption.
